@@ -103,7 +103,7 @@ class Recon:
                 t = ('bool', 'And', t, p)
             return t
         if isinstance(n, ast.Subscript):
-            return ('idx', self.ex(n.value, env), self.ex(n.slice, env))
+            return mkidx(self.ex(n.value, env), self.ex(n.slice, env))
         if isinstance(n, ast.Slice):
             return ('slice', self.ex(n.lower, env) if n.lower else None,
                     self.ex(n.upper, env) if n.upper else None,
@@ -507,6 +507,26 @@ def upd(base, idx, val):
 # ---------------------------------------------------------------------- utilities
 SIGNATURES = {}   # qualified name -> parameter names of repository functions (filled when a program is loaded)
 DUAL = set()     # qualified names of repository functions whose call terms carry both views of their arguments
+
+
+def _scalar_index(t):
+    """an index that certainly selects one position of one axis: a loop variable over range() (an integer constant does too, but
+    `np.where(m)[0][i]` indexes a tuple first, and a tuple cannot take `[0, i]`)"""
+    if t[0] == 'loopvar':
+        return isinstance(t[2], tuple) and t[2][:2] == ('call', 'range')
+    return False
+
+
+def mkidx(base, index):
+    """a[i][j, k] and a[i, j, k] are one term when i certainly is a scalar index (so that naming a row `row = a[i]` and
+    indexing the row is the same as indexing the array)"""
+    if base[0] == 'idx':
+        inner = base[2]
+        parts = inner[1] if inner[0] == 'tuple' else (inner,)
+        if all(_scalar_index(p_) for p_ in parts):
+            outer = index[1] if index[0] == 'tuple' else (index,)
+            return ('idx', base[1], ('tuple', tuple(parts) + tuple(outer)))
+    return ('idx', base, index)
 
 
 def mkcall(q, *args, uid=None, **kw):
